@@ -6,6 +6,9 @@ rows = []
 for mp in sorted(glob.glob("/verif/seeded/*/meta.json")):
     m = json.load(open(mp))
     sid = os.path.basename(os.path.dirname(mp))
+    if m.get("obsolete"):
+        rows.append((sid, m.get("needs_to_manifest", ""), m["obsolete"], ""))
+        continue
     if not m.get("confirmed"):
         rows.append((sid, m.get("needs_to_manifest", ""), "not confirmed: " + (m.get("why") or "; ".join(m.get("ran", [])))[:160], ""))
         continue
@@ -23,4 +26,4 @@ for mp in sorted(glob.glob("/verif/seeded/*/meta.json")):
 print("| change | what it needs to manifest | caught by (first tier that reports it) |")
 print("|--------|---------------------------|----------------------------------------|")
 for sid, needs, res, _ in rows:
-    print(f"| {sid} | {needs} | {res} |")
+    print(f"| {sid} | {needs.replace(chr(124), chr(47))} | {res.replace(chr(124), chr(47))} |")
